@@ -22,7 +22,7 @@ def main(run: Run) -> int:
     n = len(fc_harness.cases())
     chunk = 3 if thorough else 5
     for lo in range(0, n, chunk):
-        jobs.append({"fn": "fc_glue", "globals": {"MAXLEAVES": fc_harness.MAXLEAVES, "LO": lo, "HI": min(n, lo + chunk)}, "timeout": 600, "bound": "expressions of this partition x all truth assignments (symbolic) x yields<=1"})
+        jobs.append({"fn": "fc_glue", "globals": {"MAXLEAVES": fc_harness.MAXLEAVES, "YMAX": 1 if thorough else 0, "LO": lo, "HI": min(n, lo + chunk)}, "timeout": 600, "bound": "expressions of this partition x all truth assignments (symbolic) x with/without error messages x yields<=1 (thorough) / 0 (quick)"})
     jobs.sort(key=lambda j: -j["timeout"])
     for r, j in zip(xh.run_jobs(run, "vf.harness.fc_harness", jobs), jobs):
         xh.default_verdict(run, r, feats, bound=j["bound"])
